@@ -104,9 +104,10 @@ class Bindings:
                 if src[0] in ('let', 'iter'):
                     if src[1] is None:
                         return {f'uninit({name})'}
+                    if src[0] == 'let':
+                        return self.project(src[1], list(proj), depth + 1)
                     base = self.origins(src[1], depth + 1)
-                    tag = '' if src[0] == 'let' else '[*]'
-                    return {o + tag + suffix for o in base}
+                    return {o + '[*]' + suffix for o in base}
             return {f"const({e.get('ctor_of') or e.get('path')})"}
         if k == 'field':
             return {o + '.' + e['name'] for o in self.origins(e['e'], depth + 1)}
@@ -152,6 +153,47 @@ class Bindings:
         if k in ('return', 'break', 'continue'):
             return set()
         return {f'?{k}'}
+
+    def project(self, e, proj, depth=0):
+        """origins of `e` projected by a pattern path (pushes the projection into tuple / struct / ctor literals,
+        match and if arms, blocks and plain locals)"""
+        if not proj or not isinstance(e, dict) or depth > 25:
+            return {o + ''.join(proj) for o in self.origins(e, depth + 1)} if isinstance(e, dict) else {'?'}
+        k = e.get('k')
+        p0 = proj[0]
+        if k in ('ref', 'await', 'try', 'cast') or (k == 'unary' and e.get('op') == 'Deref'):
+            # `?` and `.await` unwrap: a projection through Ok/Some is consumed by `?`
+            return self.project(e['e'], proj, depth + 1)
+        if k == 'block' and 'tail' in e:
+            return self.project(e['tail'], proj, depth + 1)
+        if k == 'tuple' and p0.startswith('[') and p0[1:-1].isdigit() and int(p0[1:-1]) < len(e['elems']):
+            return self.project(e['elems'][int(p0[1:-1])], proj[1:], depth + 1)
+        if k == 'struct' and p0.startswith('.'):
+            for fl in e['fields']:
+                if fl['name'] == p0[1:]:
+                    return self.project(fl['e'], proj[1:], depth + 1)
+        if k == 'call' and e.get('res', '').startswith('Ctor') and p0.startswith('#'):
+            v = short(e.get('ctor_of') or e.get('path') or '')
+            pv, _, idx = p0[1:].partition('.')
+            if pv == v:
+                i = int(idx) if idx.isdigit() else 0
+                if i < len(e['args']):
+                    return self.project(e['args'][i], proj[1:], depth + 1)
+        if k == 'if':
+            out = self.project(e['then'], proj, depth + 1)
+            if 'else' in e:
+                out |= self.project(e['else'], proj, depth + 1)
+            return out
+        if k == 'match':
+            out = set()
+            for a in e['arms']:
+                out |= self.project(a['body'], proj, depth + 1)
+            return out
+        if k == 'path' and e.get('res') == 'local':
+            b = self.by_id.get(e.get('id'))
+            if b and b[1][0] == 'let' and b[1][1] is not None:
+                return self.project(b[1][1], list(b[2]) + list(proj), depth + 1)
+        return {o + ''.join(proj) for o in self.origins(e, depth + 1)}
 
     def field_of_struct(self, e, field):
         """e (after deref_local) is a struct literal: return the expression given to `field`"""
